@@ -352,7 +352,22 @@ fn main() {
                     properties: None,
                 };
                 let mut c = VConnection::new(cstate(nums[0]), open);
-                if toks[0] == "alloc" {
+                if toks[0] == "alloc" && nums.len() >= 4 && nums[3] >= 1 {
+                    // alloc <conn state> <channel_max> <k> <hole+1>: k live sessions, the one on channel <hole> ends,
+                    // then a new session begins: the channel it gets must not be held by a live session
+                    c.set_local_state(CS::Opened);
+                    c.set_agreed_channel_max(u16::MAX);
+                    for _ in 0..nums[2] {
+                        let _ = c.allocate_session();
+                    }
+                    c.deallocate_session((nums[3] - 1) as u16);
+                    let live: Vec<u16> = (0..=nums[2] as u16).filter(|ch| c.channel_in_use(*ch)).collect();
+                    let before = c.sessions();
+                    let r = c.allocate_session();
+                    let ch = r.map(|x| x as i64).unwrap_or(-1);
+                    let dup = ch >= 0 && live.contains(&(ch as u16));
+                    format!("{{\"ok\":{},\"channel\":{},\"dup\":{},\"sessions_before\":{},\"sessions_after\":{}}}", r.is_ok(), ch, dup, before, c.sessions())
+                } else if toks[0] == "alloc" {
                     c.set_agreed_channel_max(nums[1] as u16);
                     // k live sessions on channels 0..k (allocated while the state allows it)
                     let st = cstate(nums[0]);
@@ -581,12 +596,13 @@ fn main() {
                 let b_again = s.allocate_receiver_link("B");
                 format!("{{\"a\":{},\"b\":{},\"attach_ok\":{},\"detach_ok\":{},\"c\":{},\"b_name_reused\":{}}}", a, b, ra == Some(true) && rb == Some(true), rd == Some(true), c.map(|x| x as i64).unwrap_or(-1), b_again.is_ok())
             }
-            // split <frame size> <payload len> <tag len>: FrameEncoder::encode of a transfer; the frames written
+            // split <frame size> <payload len> <tag len> [more 0|1]: FrameEncoder::encode of a transfer; the frames written
             "split" => {
                 use bytes::BytesMut;
                 use fe2o3_amqp::frames::amqp::{Frame, FrameBody, FrameDecoder};
                 use tokio_util::codec::{Decoder, Encoder};
                 let (fs, plen, tlen) = (nums[0] as usize, nums[1] as usize, nums[2] as usize);
+                let more = nums.get(3).copied().unwrap_or(0) == 1;
                 let payload: Vec<u8> = (0..plen).map(|i| (i % 251) as u8 + 1).collect();
                 let t = Transfer {
                     handle: Handle(1),
@@ -594,7 +610,7 @@ fn main() {
                     delivery_tag: Some(ByteBuf::from(vec![0x2a; tlen])),
                     message_format: Some(0),
                     settled: None,
-                    more: false,
+                    more,
                     rcv_settle_mode: None,
                     state: None,
                     resume: false,
@@ -641,6 +657,24 @@ fn main() {
                 };
                 let max = track::MAX.load(std::sync::atomic::Ordering::SeqCst);
                 format!("{{\"input_len\":{},\"ok\":{},\"max_alloc\":{}}}", input.len(), ok, max)
+            }
+            // framedec <amqp|sasl> <doff> <type> <len>: the real frame decoder on a frame of <len> bytes (size field
+            //   already stripped) starting with doff, type, two channel bytes and then a described-list prefix
+            "framedec" => {
+                use bytes::BytesMut;
+                use tokio_util::codec::Decoder;
+                let (doff, ftype, len) = (nums[1] as u8, nums[2] as u8, nums[3] as usize);
+                let filler = [0x00u8, 0x53, 0x10, 0xc0, 0x02, 0x01, 0x40, 0x00, 0x53, 0x11, 0x45];
+                let mut bytes: Vec<u8> = vec![doff, ftype, 0, 1];
+                bytes.extend((0..len.saturating_sub(4)).map(|i| filler[i % filler.len()]));
+                bytes.truncate(len);
+                let mut src = BytesMut::from(&bytes[..]);
+                let ok = if toks[1] == "sasl" {
+                    fe2o3_amqp::frames::sasl::FrameCodec {}.decode(&mut src).is_ok()
+                } else {
+                    fe2o3_amqp::frames::amqp::FrameDecoder {}.decode(&mut src).is_ok()
+                };
+                format!("{{\"ok\":{}}}", ok)
             }
             // iochunk <k>: values that go through the io reader's peek buffer, decoded from a reader that
             //   delivers at most <k> bytes per read() call, compared with the slice reader
